@@ -9,6 +9,7 @@ import (
 	"errors"
 	"flag"
 	"fmt"
+	"math"
 	"net"
 	"os"
 	"reflect"
@@ -83,6 +84,11 @@ type method struct {
 	f    func(e *zerolog.Event) *zerolog.Event
 	arr  func(a *zerolog.Array) *zerolog.Array // element counterpart, if any
 }
+
+var (
+	vF64sNaN = []float64{math.NaN(), 1, math.Inf(1), math.Inf(-1)}
+	vF32sNaN = []float32{float32(math.NaN()), float32(math.Inf(1))}
+)
 
 func methods() []method {
 	return []method{
@@ -167,6 +173,20 @@ func methods() []method {
 		{"Err/nil", func(e *zerolog.Event) *zerolog.Event { return e.Err(nil).AnErr("k", nil) }, nil}, // (Array.Err(nil) goes through AppendInterface: outside the statement's "plain error")
 		{"RawJSON/empty", func(e *zerolog.Event) *zerolog.Event { return e.RawJSON("k", []byte("{}")) }, nil},
 		{"Type/nil", func(e *zerolog.Event) *zerolog.Event { return e.Type("k", nil) }, nil},
+		// non-finite floats (rendered as strings), negative zero, integers at their extremes
+		{"Float64/nan", func(e *zerolog.Event) *zerolog.Event { return e.Float64("k", math.NaN()).Float64("i", math.Inf(-1)) }, func(a *zerolog.Array) *zerolog.Array { return a.Float64(math.NaN()).Float64(math.Inf(1)) }},
+		{"Float32/nan", func(e *zerolog.Event) *zerolog.Event {
+			return e.Float32("k", float32(math.NaN())).Float32("i", float32(math.Inf(1)))
+		}, func(a *zerolog.Array) *zerolog.Array { return a.Float32(float32(math.Inf(-1))) }},
+		{"Floats/nan", func(e *zerolog.Event) *zerolog.Event { return e.Floats64("k", vF64sNaN).Floats32("l", vF32sNaN) }, nil},
+		{"Float64/negzero", func(e *zerolog.Event) *zerolog.Event {
+			return e.Float64("k", math.Copysign(0, -1)).Float32("l", float32(math.Copysign(0, -1)))
+		}, nil},
+		{"Int/extremes", func(e *zerolog.Event) *zerolog.Event {
+			return e.Int64("k", math.MinInt64).Uint64("u", math.MaxUint64).Int8("b", -128)
+		}, func(a *zerolog.Array) *zerolog.Array { return a.Int64(math.MinInt64).Uint64(math.MaxUint64) }},
+		{"Dur/extremes", func(e *zerolog.Event) *zerolog.Event { return e.Dur("k", math.MaxInt64).Dur("z", 0).Dur("n", -1) }, func(a *zerolog.Array) *zerolog.Array { return a.Dur(math.MinInt64) }},
+		{"Time/zero", func(e *zerolog.Event) *zerolog.Event { return e.Time("k", time.Time{}).Times("l", []time.Time{{}}) }, func(a *zerolog.Array) *zerolog.Array { return a.Time(time.Time{}) }},
 		{"Object/nested", func(e *zerolog.Event) *zerolog.Event { return e.Object("k", vObjNested) }, func(a *zerolog.Array) *zerolog.Array { return a.Object(vObjNested) }},
 	}
 }
